@@ -30,9 +30,9 @@ Proof. exact prettify_only_ws. Qed.
 Print Assumptions C14_pretty_only_ws.
 
 (* ... and piece by piece: each piece is the plain piece, untouched or stripped and decorated *)
-Theorem C14_pretty_pieces : forall enc f t lv pn nn,
-  Forall2 (decorates f) (pretty enc f lv pn nn t) (plain enc f pn nn t).
-Proof. intros enc f t lv pn nn. apply pretty_pieces. Qed.
+Theorem C14_pretty_pieces : forall enc f t lv pn,
+  Forall2 (decorates f) (pretty enc f lv pn t) (plain enc f pn t).
+Proof. intros enc f t lv pn. apply pretty_pieces. Qed.
 Print Assumptions C14_pretty_pieces.
 
 (* line structure: the output is the concatenation of  indent * depth ++ text ++ newline  over the
